@@ -562,21 +562,16 @@ func (t timeSerializer) serialize(ctx context.Context, typ sql.Type, value inter
 	// NOTE: Dolt always uses 6 digits of precision. When Dolt starts supporting other time precisions,
 	//       this code will need to change.
 	microseconds := durationInMicroseconds % 1_000_000
+	borrow := int64(0)
 	if negative && microseconds > 0 {
-		seconds++
-		if seconds == 60 {
-			seconds = 0
-			minutes += 1
-		}
-		if minutes == 60 {
-			minutes = 0
-			hours += 1
-		}
+		// The packed value is negated as a whole, so a fractional part borrows one from the packed
+		// hour/minute/second integer (a plain increment of the bit field, with no carry at 60)
+		borrow = 1
 		microseconds = 0x1000000 - microseconds
 	}
 
 	// Prepare the 3 byte hour/minute/second component
-	hms := hours<<12 | minutes<<6 | seconds + 0x800000
+	hms := (hours<<12 | minutes<<6 | seconds) + borrow + 0x800000
 	if negative {
 		hms *= -1
 	}
